@@ -468,6 +468,24 @@ class Report:
         }
         if self.notes:
             ev["coverage"]["notes"] = self.notes
+        cov = ev["coverage"]
+        # keep the schema's types whatever a property module put there
+        if "exhaustive" in cov and not isinstance(cov["exhaustive"], bool):
+            cov["exhaustive_scope"] = cov["exhaustive"]
+            cov["exhaustive"] = False
+        for k in ("evaluations", "distinct_nontrivial", "states", "transitions", "traces_validated_against_impl",
+                  "obligations", "discharged", "programs", "disagreements_checked"):
+            if k in cov and not isinstance(cov[k], int):
+                try:
+                    cov[k] = int(cov[k])
+                except (TypeError, ValueError):
+                    cov[k + "_note"] = cov.pop(k)
+        if "samples" in cov and not isinstance(cov["samples"], list):
+            cov["samples"] = [cov["samples"]]
+        if not cov.get("samples"):
+            cov["samples"] = [{"note": "no case was evaluated in this run (see violations)"}]
+        if cov.get("obligations", 0) < 1:
+            cov.setdefault("evaluations", 0)
         with open(os.path.join(EVID, "%s.json" % self.pid), "w") as f:
             json.dump(ev, f, indent=1, default=str)
         for k in self.known:
